@@ -19,6 +19,51 @@ KIND = {"i8": (0, 1, 8), "i16": (0, 2, 8), "i32": (0, 4, 8), "i64": (0, 8, 8), "
         "u32": (0, 4, 0), "u64": (0, 8, 0), "f32": (1, 4, 0), "f64": (1, 8, 0),
         "[]i32": (0, 4, 8), "[]i64": (0, 8, 8), "[]f32": (1, 4, 0), "[]f64": (1, 8, 0)}
 UNLIMITED = 0xFFFFFFFFFFFFFFFF
+VLEN_BASES = {"string": 1, "int32": 4, "int64": 8, "uint32": 4, "uint64": 8, "float32": 4, "float64": 8}
+COMPOUND_MUST_READ = {"int32", "uint32", "int64", "uint64", "float32", "float64", "string"}   # member types with a documented typed read
+
+
+def base_of(dtype):
+    """numeric base of array / enum / object-reference datasets (the Go slice element type Write takes), else None"""
+    if dtype and (dtype.startswith("array:") or dtype.startswith("enum:")):
+        return dtype.split(":", 1)[1]
+    if dtype == "objref":
+        return "uint64"
+    return None
+
+
+def esize_of(dtype, strsize=0, adims=None, csize=0):
+    """bytes per dataset element, None when unknown"""
+    if dtype in ESZ:
+        return ESZ[dtype]
+    if dtype in ("string", "opaque"):
+        return strsize or None
+    if dtype and dtype.startswith("array:"):
+        b = ESZ.get(dtype[6:])
+        return b * prod(adims or []) if b and adims else None
+    if dtype and dtype.startswith("enum:"):
+        return ESZ.get(dtype[5:])
+    if dtype == "objref":
+        return 8
+    if dtype == "regref":
+        return 12
+    if dtype and dtype.startswith("vlen:"):
+        return 16
+    if dtype == "compound":
+        return csize or None
+    return None
+
+
+def member_size(m):
+    return m.get("size", 0) if m["type"] == "string" else ESZ.get(m["type"], 0)
+
+
+# ids of open findings (KNOWN_FINDINGS.json) whose class the comparison leaves out; set by histcheck.run.
+#   C03-dense-group-links-not-read: the links of a group created by CreateDenseGroup are not listed by the reader -> the children
+#   of such a group are not part of the expectation (the group itself, its siblings and everything else are).
+KNOWN_CLASSES = set()
+DENSE_LINKS = "C03-dense-group-links-not-read"
+SKIPPED = {"dense_groups": 0}
 
 
 def prod(xs):
@@ -43,7 +88,16 @@ class Obj:
         self.chunk = None
         self.filters = []
         self.strsize = 0
-        self.data = None            # bytes or None (never written)
+        self.data = None            # bytes or None (never written); variable-length: list of element bytes
+        self.adims = None           # array datatypes
+        self.enum = None            # enum datatypes: [(name bytes, value int)]
+        self.tag = None             # opaque tag
+        self.members = None         # compound: [dict(name, type, size, off)]
+        self.csize = 0              # compound: record size
+        self.dense = False          # group created through CreateDenseGroup
+
+    def esize(self):
+        return esize_of(self.dtype, self.strsize, self.adims, self.csize)
 
 
 class Oracle:
@@ -88,7 +142,7 @@ class Oracle:
             return None
         if not self.open:
             return "err"
-        if k in ("mkgroup", "mkds", "hardlink", "softlink", "extlink"):
+        if k in ("mkgroup", "mkds", "hardlink", "softlink", "extlink", "mkcompound", "mkdense", "mkgrouplinks"):
             path = op["path"]
             if not self.valid_path(path):
                 return "err" if (not path or not path.startswith("/") or path == "/") else None
@@ -101,7 +155,22 @@ class Oracle:
             if k == "hardlink":
                 if self.lookup(op["target"]) is None or op["target"] == "/":
                     return "err"
+            if k in ("mkdense", "mkgrouplinks"):
+                for nm, tgt in (op.get("links") or {}).items():
+                    if not nm or "/" in nm or self.lookup(tgt) is None:
+                        return "err"
+            if k == "mkcompound":
+                if not op.get("members"):
+                    return "err"
             if k == "mkds":
+                dt = op.get("dtype", "")
+                if dt.startswith("array:") and not op.get("adims"):
+                    return "err"
+                if dt.startswith("enum:") and (not op.get("enames") or len(op.get("enames") or []) != len(op.get("evals") or [])):
+                    return "err"
+                if dt in ("string", "opaque") and not op.get("strsize") and "strsize" in op:
+                    return "err"
+            if k in ("mkds", "mkcompound"):
                 dims = op.get("dims") or []
                 if not dims or any(d == 0 for d in dims):
                     return "err"
@@ -116,6 +185,10 @@ class Oracle:
                     if op.get("chunk") is None:
                         return "err"
             return None
+        if k == "rebalance":
+            if not op.get("path"):
+                return "ok"         # DisableRebalancing / EnableRebalancing / RebalanceAllBTrees on an open writer
+            return "err" if self.lookup(op["path"]) is None else None
         if k in ("write", "resize", "setattr", "delattr", "closeds"):
             oid = self.lookup(op["path"])
             if oid is None:
@@ -124,8 +197,15 @@ class Oracle:
             if k == "write":
                 if o.kind != "dataset":
                     return "err"
+                if op.get("vals") is not None:
+                    if not (o.dtype or "").startswith("vlen:") or len(op["vals"]) != prod(o.dims):
+                        return "err"
+                    return None
                 raw = bytes.fromhex(op["val"])
-                if o.dtype in ESZ and len(raw) != prod(o.dims) * ESZ[o.dtype]:
+                es = o.esize()
+                if (o.dtype or "").startswith("vlen:"):
+                    return "err" if not op.get("raw") else None      # fixed bytes are not variable-length elements
+                if es and (o.dtype != "string" or op.get("raw")) and len(raw) != prod(o.dims) * es:
                     return "err"
                 return None
             if k == "resize":
@@ -166,12 +246,27 @@ class Oracle:
             self.session += 1
             self.handles = set()
             return
-        if k in ("mkgroup", "mkds"):
+        if k in ("mkgroup", "mkds", "mkcompound", "mkdense", "mkgrouplinks"):
             parent, name = self.split(op["path"])
             pid = self.lookup(parent)
-            o = Obj("group" if k == "mkgroup" else "dataset")
+            o = Obj("dataset" if k in ("mkds", "mkcompound") else "group")
+            if k in ("mkdense", "mkgrouplinks"):
+                o.dense = k == "mkdense" or len(op.get("links") or {}) > 8
+                for nm, tgt in (op.get("links") or {}).items():
+                    o.children[nm.encode()] = self.lookup(tgt)
+            if k == "mkcompound":
+                o.dtype, o.dims = "compound", list(op["dims"])
+                o.members = [dict(m) for m in op["members"]]
+                o.csize = op.get("csize") or sum(member_size(m) for m in o.members)
+                o.enc = op.get("enc") or "fields"
+                o.chunk = list(op["chunk"]) if op.get("chunk") is not None else None
             if k == "mkds":
                 o.dtype, o.dims = op["dtype"], list(op["dims"])
+                o.adims = list(op["adims"]) if op.get("adims") else None
+                if op.get("enames"):
+                    o.enum = list(zip([n.encode() for n in op["enames"]], op.get("evals") or []))
+                if op["dtype"] == "opaque":
+                    o.tag = (op["tag"] if op.get("tag") is not None else "verif").encode()
                 o.maxdims = list(op["maxdims"]) if op.get("maxdims") is not None else None
                 o.chunk = list(op["chunk"]) if op.get("chunk") is not None else None
                 o.filters = list(op.get("filters") or [])
@@ -190,8 +285,11 @@ class Oracle:
             self.objs[pid].__dict__.setdefault("softlinks", {})[name.encode()] = (k, op.get("target"), op.get("file"))
         elif k == "write":
             o = self.objs[self.lookup(op["path"])]
+            if op.get("vals") is not None:
+                o.data = [bytes.fromhex(v) for v in op["vals"]]
+                return
             raw = bytes.fromhex(op["val"])
-            if o.dtype == "string":
+            if o.dtype == "string" and not op.get("raw"):
                 parts = raw.split(b"\x00")
                 if parts and parts[-1] == b"":
                     parts = parts[:-1]
@@ -200,7 +298,10 @@ class Oracle:
         elif k == "resize":
             o = self.objs[self.lookup(op["path"])]
             if o.data is not None:      # a never-written dataset has no content the properties talk about
-                o.data = resize_arr(o.data, o.dims, op["dims"], ESZ.get(o.dtype, o.strsize or 1))
+                if isinstance(o.data, list):
+                    o.data = None       # variable-length elements: resize semantics are checked on fixed-size kinds only
+                else:
+                    o.data = resize_arr(o.data, o.dims, op["dims"], o.esize() or 1)
             o.dims = list(op["dims"])
         elif k == "setattr":
             o = self.objs[self.lookup(op["path"])]
@@ -223,6 +324,9 @@ class Oracle:
         def walk(oid, path, seen):
             o = self.objs[oid]
             out[path] = (oid, o)
+            if o.kind == "group" and o.dense and o.children and DENSE_LINKS in KNOWN_CLASSES:
+                SKIPPED["dense_groups"] += 1
+                return
             if o.kind == "group" and oid not in seen:
                 for name, cid in o.children.items():
                     c = self.objs[cid]
@@ -299,6 +403,8 @@ def run_oracle(case, result, upto=None):
         if res.get("panic"):
             findings.append(Finding("panic", "op %d %s panicked: %s" % (i, op["op"], res["panic"].splitlines()[0]), op_index=i, op=op))
             continue
+        if res.get("note"):
+            findings.append(Finding("api", "op %d %s %s: %s" % (i, op["op"], op.get("path"), res["note"]), op_index=i, op=op))
         must = orc.must(op)
         ok = bool(res.get("ok"))
         if must == "err" and ok:
@@ -357,7 +463,7 @@ def compare_dump(orc, dump, what="final", skip_data=False):
         if g["kind"] != o.kind:
             f.append(Finding("tree", "%s: %s is a %s, expected %s" % (what, p, g["kind"], o.kind)))
             continue
-        if o.kind == "group":
+        if o.kind == "group" and not (o.dense and o.children and DENSE_LINKS in KNOWN_CLASSES):
             names = sorted(bytes.fromhex(c) for c in (g.get("children") or []))
             if names != sorted(o.children):
                 f.append(Finding("tree", "%s: group %s lists %s, expected %s" % (what, p, names[:8], sorted(o.children)[:8])))
@@ -396,6 +502,8 @@ def compare_dump(orc, dump, what="final", skip_data=False):
         elif o.dtype == "string":
             if (g["class"], g["size"]) != (3, o.strsize):
                 f.append(Finding("data", "%s: dataset %s has type class=%d size=%d, written string(%d)" % (what, p, g["class"], g["size"], o.strsize)))
+        else:
+            f += check_type(o, g, what, p)
         if list(g.get("dims") or []) != list(o.dims):
             f.append(Finding("data", "%s: dataset %s has shape %s, expected %s" % (what, p, g.get("dims"), o.dims)))
             continue
@@ -403,14 +511,24 @@ def compare_dump(orc, dump, what="final", skip_data=False):
             f.append(Finding("data", "%s: dataset %s has max dims %s, expected %s" % (what, p, g.get("maxdims"), o.maxdims)))
         if o.data is None or skip_data:
             continue            # never fully written: the properties say nothing about its content
+        if isinstance(o.data, list):
+            f += check_vlen(o, g, what, p)
+            continue
         if g.get("rawerr"):
             f.append(Finding("data", "%s: dataset %s data unreadable: %s" % (what, p, g["rawerr"])))
         elif g.get("raw") is not None and bytes.fromhex(g["raw"]) != o.data:
             raw = bytes.fromhex(g["raw"])
             idx = next((i for i in range(min(len(raw), len(o.data))) if raw[i] != o.data[i]), min(len(raw), len(o.data)))
             f.append(Finding("data", "%s: dataset %s bytes differ from what was written (first difference at byte %d; %d vs %d bytes)" % (what, p, idx, len(raw), len(o.data)), path=p))
+        f += check_other_reads(o, g, what, p)
         w = widen(o.dtype, o.data) if o.dtype in ESZ else None
-        if w is not None:
+        nb = base_of(o.dtype)
+        if w is None and nb is not None and g.get("read") is not None and not g.get("readerr"):
+            # array / enum / object reference: no typed read is documented; an error is fine, values must be the base values
+            wb = widen(nb, o.data)
+            if wb is None or g["read"] != wb:
+                f.append(Finding("data", "%s: Read of %s (%s) returns values that are not the written base values" % (what, p, o.dtype), path=p))
+        elif w is not None:
             if g.get("readerr"):
                 f.append(Finding("data", "%s: Read of %s fails: %s" % (what, p, g["readerr"])))
             elif g.get("read") is not None and g["read"] != w:
@@ -418,7 +536,7 @@ def compare_dump(orc, dump, what="final", skip_data=False):
                 f.append(Finding("data", "%s: Read of %s returns different values (element %d: got %s expected %s)" % (
                     what, p, i, g["read"][i] if 0 <= i < len(g["read"]) else None, w[i] if 0 <= i < len(w) else None), path=p))
         else:
-            if g.get("read") is not None and not g.get("readerr") and o.dtype is not None:
+            if g.get("read") is not None and not g.get("readerr") and o.dtype is not None and nb is None:
                 # no typed numeric read exists for this type: values instead of an error
                 f.append(Finding("data", "%s: Read of %s (%s) returns values although no typed read exists for it" % (what, p, o.dtype), path=p))
         if o.dtype == "string" and o.strsize:
@@ -427,6 +545,177 @@ def compare_dump(orc, dump, what="final", skip_data=False):
                 f.append(Finding("data", "%s: ReadStrings of %s fails: %s" % (what, p, g["strerr"])))
             elif [bytes.fromhex(s) for s in (g.get("strings") or [])] != exp_strs:
                 f.append(Finding("data", "%s: ReadStrings of %s returns %s, expected %s" % (what, p, (g.get("strings") or [])[:4], [e.hex() for e in exp_strs[:4]]), path=p))
+    return f
+
+
+_SPEC = [None]
+
+
+def decode_dtmsg(hexs):
+    """the datatype message of a dump, decoded by the independent specification decoder in tolerant mode -> (description, error)"""
+    if _SPEC[0] is None:
+        import h5spec
+        _SPEC[0] = h5spec
+    w = _SPEC[0].Walker(b"")
+    w.lenient_nested_float = True       # conformance of property bytes is C05's subject; here: which type is it
+    try:
+        return w.datatype(bytes.fromhex(hexs), "datatype"), None
+    except Exception as e:      # SpecError / Unsupported
+        return None, str(e)
+
+
+def type_of_member(m):
+    """(class, size, signed) of a compound member / numeric base type name"""
+    t = m["type"] if isinstance(m, dict) else m
+    if t == "string":
+        return (3, m["size"], False)
+    return (1 if t.startswith("float") else 0, ESZ[t], t in SIGNED)
+
+
+def desc_triple(t):
+    return (t["cls"], t["size"], bool(t.get("signed")) if t["cls"] == 0 else False)
+
+
+def type_desc_problems(o, t):
+    """oracle object vs. a datatype description decoded from file bytes (tools/h5spec.py dict); list of strings.
+    Shared by the history oracle (datatype message returned by the library's header reader) and by C05 (independent walk)."""
+    out = []
+    dt = o.dtype or ""
+    if dt.startswith("array:"):
+        if t["cls"] != 10 or list(t.get("adims") or []) != list(o.adims) or desc_triple(t["base"]) != type_of_member(dt[6:]):
+            out.append("array type decodes as class %d dims %s base %s, created as %s%s" % (t["cls"], t.get("adims"), t.get("base") and desc_triple(t["base"]), dt, o.adims))
+    elif dt.startswith("enum:"):
+        bsz = ESZ[dt[5:]]
+        want = [(n, (v % (1 << (8 * bsz))).to_bytes(bsz, "little")) for n, v in (o.enum or [])]
+        if t["cls"] != 8 or desc_triple(t["base"]) != type_of_member(dt[5:]):
+            out.append("enumeration type decodes as class %d base %s, created as %s" % (t["cls"], t.get("base") and desc_triple(t["base"]), dt))
+        elif list(t.get("emembers") or []) != want and list(t.get("emembers_alt") or []) != want:
+            out.append("enumeration members decode as %s, created as %s" % ([(n, v.hex()) for n, v in (t.get("emembers") or [])][:6], [(n, v.hex()) for n, v in want][:6]))
+    elif dt == "opaque":
+        if t["cls"] != 5 or t["size"] != o.strsize or (o.tag is not None and t.get("tag") != o.tag):
+            out.append("opaque type decodes as class %d size %d tag %r, created with size %d tag %r" % (t["cls"], t["size"], t.get("tag"), o.strsize, o.tag))
+    elif dt in ("objref", "regref"):
+        if (t["cls"], t["size"], t["bits"] & 0xF) != ((7, 8, 0) if dt == "objref" else (7, 12, 1)):
+            out.append("reference type decodes as class %d size %d type %d, created as %s" % (t["cls"], t["size"], t["bits"] & 0xF, dt))
+    elif dt.startswith("vlen:"):
+        b = dt[5:]
+        wantb = (3, 1, False) if b == "string" else type_of_member(b)
+        if t["cls"] != 9 or t.get("vlen") != ("string" if b == "string" else "sequence") or desc_triple(t["base"]) != wantb:
+            out.append("variable-length type decodes as class %d %s base %s, created as %s" % (t["cls"], t.get("vlen"), t.get("base") and desc_triple(t["base"]), dt))
+    elif dt == "compound":
+        got = [(m["name"], m["off"]) + desc_triple(m["dt"]) for m in (t.get("members") or [])]
+        want = [(m["name"].encode(), m["off"]) + type_of_member(m) for m in o.members]
+        if t["cls"] != 6 or t["size"] != o.csize or got != want:
+            out.append("compound type decodes as class %d size %d members %s, created with size %d members %s" % (t["cls"], t["size"], got[:6], o.csize, want[:6]))
+    return out
+
+
+def check_type(o, g, what, p):
+    """extended dataset kinds: class/size the reader reports, the datatype message it returns (decoded independently),
+    and for compound datasets the member table ReadCompound works from"""
+    f = []
+    es = o.esize()
+    ecls = {"array": 10, "enum": 8, "opaque": 5, "objref": 7, "regref": 7, "vlen": 9, "compound": 6}.get((o.dtype or "").split(":")[0])
+    if ecls is None:
+        return f
+    if (g["class"], g["size"]) != (ecls, es):
+        f.append(Finding("data", "%s: dataset %s has type class=%d size=%d, created as %s (class %d, element size %s)" % (what, p, g["class"], g["size"], o.dtype, ecls, es)))
+        return f
+    if g.get("dtmsg"):
+        t, err = decode_dtmsg(g["dtmsg"])
+        if t is None:
+            f.append(Finding("data", "%s: the datatype message of %s (%s) cannot be decoded: %s" % (what, p, o.dtype, err), path=p))
+        else:
+            for x in type_desc_problems(o, t):
+                f.append(Finding("data", "%s: dataset %s: %s" % (what, p, x), path=p))
+    if o.dtype == "compound":
+        if g.get("memerr"):
+            f.append(Finding("data", "%s: the member table of compound dataset %s cannot be read: %s" % (what, p, g["memerr"]), path=p))
+        else:
+            got = [(bytes.fromhex(m["name"]), m["off"], m["class"], m["size"], bool(m["bits"] & 8) if m["class"] == 0 else False) for m in (g.get("members") or [])]
+            want = [(m["name"].encode(), m["off"]) + type_of_member(m) for m in o.members]
+            if got != want:
+                f.append(Finding("data", "%s: compound dataset %s is read with members %s, created with %s" % (what, p, got[:6], want[:6]), path=p))
+    return f
+
+
+def compound_expected(o):
+    """what ReadCompound must return: per record {name: acceptable renderings}"""
+    recs = []
+    n = prod(o.dims)
+    for i in range(n):
+        rec = {}
+        base = i * o.csize
+        for m in o.members:
+            b = o.data[base + m["off"]:base + m["off"] + member_size(m)]
+            t = m["type"]
+            if t == "string":
+                acc = {"str:" + b.split(b"\x00")[0].hex()}
+            elif t == "float32":
+                acc = {"f32:" + "%08x" % struct.unpack("<I", b)[0]}
+            elif t == "float64":
+                acc = {"f64:" + "%016x" % struct.unpack("<Q", b)[0]}
+            else:
+                v = int.from_bytes(b, "little", signed=t in SIGNED)
+                acc = {"%s:%d" % (k, v) for k in ("i8", "i16", "i32", "i64", "u8", "u16", "u32", "u64")}   # value-exact in any integer type
+            rec[m["name"].encode().hex()] = acc
+        recs.append(rec)
+    return recs
+
+
+def check_other_reads(o, g, what, p):
+    """ReadCompound / ReadStrings on every dataset kind: the written values or an error, never different values"""
+    f = []
+    if o.dtype == "compound":
+        if g.get("comperr") or not g.get("hascomp"):
+            if all(m["type"] in COMPOUND_MUST_READ for m in o.members):
+                f.append(Finding("data", "%s: ReadCompound of %s fails: %s" % (what, p, g.get("comperr")), path=p))
+        elif g.get("compound") is not None:
+            exp = compound_expected(o)
+            canon = {m["name"].encode().hex(): {i: "%s %s" % (m["type"], (o.data[i * o.csize + m["off"]:i * o.csize + m["off"] + member_size(m)]).hex())
+                                                  for i in range(len(exp))} for m in o.members}
+            got = []
+            for r in g["compound"]:
+                got.append(dict(kv.split("=", 1) for kv in r.split(";") if kv))
+            bad = None
+            if len(got) != len(exp):
+                bad = "%d records, expected %d" % (len(got), len(exp))
+            else:
+                for i, (gr, er) in enumerate(zip(got, exp)):
+                    if set(gr) != set(er):
+                        bad = "record %d has members %s, expected %s" % (i, sorted(bytes.fromhex(k) for k in gr), sorted(bytes.fromhex(k) for k in er))
+                        break
+                    k = next((k for k in er if gr[k] not in er[k]), None)
+                    if k is not None:
+                        bad = "record %d member %r reads as %s, written %s" % (i, bytes.fromhex(k), gr[k], canon.get(k, {}).get(i))
+                        break
+            if bad:
+                f.append(Finding("data", "%s: ReadCompound of %s returns different values (%s)" % (what, p, bad), path=p))
+    elif g.get("hascomp"):
+        f.append(Finding("data", "%s: ReadCompound of %s (%s) returns records although it is not a compound dataset" % (what, p, o.dtype), path=p))
+    if o.dtype not in ("string",) and o.dtype not in ESZ and not (o.dtype or "").startswith("vlen:") and o.dtype is not None:
+        if "strerr" not in g and "nstrings" in g and (g.get("strings") or g.get("nstrings")):
+            f.append(Finding("data", "%s: ReadStrings of %s (%s) returns strings although it is not a string dataset" % (what, p, o.dtype), path=p))
+    return f
+
+
+def check_vlen(o, g, what, p):
+    f = []
+    if g.get("rawerr"):
+        f.append(Finding("data", "%s: dataset %s data unreadable: %s" % (what, p, g["rawerr"])))
+    elif g.get("vlen") is not None and g["vlen"] != [e.hex() for e in o.data]:
+        i = next((i for i, (a, b) in enumerate(zip(g["vlen"], o.data)) if a != b.hex()), min(len(g["vlen"]), len(o.data)))
+        f.append(Finding("data", "%s: variable-length dataset %s resolves to different elements than were written (element %d: %s, written %s; %d vs %d elements)" % (
+            what, p, i, (g["vlen"][i] if i < len(g["vlen"]) else None), (o.data[i].hex() if i < len(o.data) else None), len(g["vlen"]), len(o.data)), path=p))
+    if g.get("read") is not None and not g.get("readerr"):
+        f.append(Finding("data", "%s: Read of %s (%s) returns values although no typed read exists for it" % (what, p, o.dtype), path=p))
+    if "strerr" not in g and g.get("strings") is not None and o.dtype == "vlen:string":
+        if [bytes.fromhex(x) for x in g["strings"]] != o.data:
+            f.append(Finding("data", "%s: ReadStrings of %s returns different strings than were written" % (what, p), path=p))
+    elif "strerr" not in g and (g.get("strings") or g.get("nstrings")) and o.dtype != "vlen:string":
+        f.append(Finding("data", "%s: ReadStrings of %s (%s) returns strings although it is not a string dataset" % (what, p, o.dtype), path=p))
+    if g.get("hascomp"):
+        f.append(Finding("data", "%s: ReadCompound of %s (%s) returns records although it is not a compound dataset" % (what, p, o.dtype), path=p))
     return f
 
 
